@@ -56,6 +56,8 @@ BASE_OK = [  # documented constructs (may evaluate)
     "[r.item for r in orders]", "[r for r in orders if r.amount > 1]", "(r.item for r in orders)", "any(r.amount > 1 for r in orders)",
     "sum(r.amount for r in orders)", "len(orders)", "orders[0]", "orders[0].item", 'orders[0]["item"]', "next((r for r in orders), None)",
     "(m := amount) and m > 1", 'date >= "2025-01-01"', 'date == "2025-01-15"', '"2025-01-01" <= date', 'extract("(\\\\d+)")', 'exists(field.nope)',
+    'sum(by("month"))', 'max(by("day"))', 'count(by("week"))', 'avg(by("year"))', 'by("month")', 'max(sum(by("month")))', "months", "total", "cv", "payments",
+    "count(payments)", "category", "subcategory", "merchant", "tags", 'period("month")', "stddev(payments)", "max_val", "total / months",
     "max(1, 2)", "min(r.amount for r in orders)", "[r async for r in orders]", "[(x.item for x in orders) for r in orders]", 'split(" ", 0)', "substring(0, 3)", "trim()", 'b"bytes"', "1j", "...",
 ]
 BASE_BAD = [  # constructs outside the documented language: must be rejected or fail as an expression error
@@ -197,11 +199,20 @@ def function_corpus():
 
 CHUNK = 40
 
+# ---- names bound while evaluating one expression must be gone (and must shadow nothing) in the next evaluation
+BINDERS = ["(zz := description)", "(zz := amount) > 0", "[zz for zz in orders]", "any((zz := r.amount) > 0 for r in orders)", "(amount := 5) and amount",
+           '(description := "X") and description', "[amount for amount in orders]", "(orders := 1)", "(contains := 1)", "sum(zz.amount for zz in orders)",
+           "(month := 13) and (source := 1) and (date := 2)", "[(zz := r) for r in orders][0].item", "(zz := orders) and (field := 1)"]
+READERS = [("zz", "error"), ("zz == 5 or zz != 5", "error"), ("amount", 7.5), ("description", "OTHER SHOP"), ("len(orders)", "N_ORDERS"), ('contains("OTHER")', True),
+           ("month", 2), ("source", "chase"), ("field.memo", "m2"), ('date == "2025-02-03"', True)]
+TXN_B = {"description": "OTHER SHOP", "amount": 7.5, "date": dt.date(2025, 2, 3), "field": {"memo": "m2"}, "source": "chase"}
+
 
 def gen_cases(tier):
     fc = function_corpus()
     for i in range(0, len(fc), CHUNK):
         yield {"corpus": "functions", "contexts": "functions", "items": [[e, low] for e, low in fc[i:i + CHUNK]]}
+    yield {"corpus": "residue", "contexts": "residue", "items": [[b, None] for b in BINDERS]}
     for corpus, items, ctxs in (("node", node_corpus(), "all"), ("payload", payload_corpus(), "all" if tier == "thorough" else "direct+some"),
                                 ("closure", list(closure_corpus()), "all" if tier == "thorough" else "direct")):
         for i in range(0, len(items), CHUNK):
@@ -354,8 +365,12 @@ def run_view(expr, pos):
         problems.append(f"audit events while loading views: {bad_ev[:3]}")
     if cfg is None:
         return "rejected", problems
+    # several payments, deliberately NOT in date order, with differing category / tags per payment
     group = {"merchant": "M", "category": "Food", "subcategory": "Grocery",
-             "transactions": [{"amount": 10.0, "date": dt.datetime(2025, 1, 15), "category": "Food", "subcategory": "Grocery", "merchant": "M", "tags": ["a"]}]}
+             "transactions": [{"amount": 10.0, "date": dt.datetime(2025, 3, 15), "category": "Food", "subcategory": "Grocery", "merchant": "M", "tags": ["a"]},
+                              {"amount": 30.5, "date": dt.datetime(2025, 1, 2), "category": "Shop", "subcategory": "Other", "merchant": "M", "tags": ["b", "a"]},
+                              {"amount": 7.25, "date": dt.datetime(2025, 2, 20), "category": "Food", "subcategory": "Grocery", "merchant": "M", "tags": []},
+                              {"amount": 12.0, "date": dt.datetime(2025, 1, 1), "category": "Food", "subcategory": "Grocery", "merchant": "M", "tags": ["c"]}]}
     g0 = copy.deepcopy(group)
     with audit.watch() as w:
         try:
@@ -385,9 +400,55 @@ def contexts_for(case_ctx, idx):
     return ["direct"] + FILE_POSITIONS + ["view-filter", "view-variable"]
 
 
+def run_residue(binder):
+    """Evaluate `binder` on TXN (directly, and as the first rule of a file), then every reader on another transaction."""
+    from tally import expr_parser as ep
+    from tally.merchant_engine import parse_merchants
+    out = []
+    H.reset_state()
+    for entry in ("direct", "engine"):
+        for reader, want in READERS:
+            txn, ds, vs = snapshot()
+            if entry == "direct":
+                try:
+                    ep.evaluate_transaction(binder, txn, vs, ds)
+                except ep.ExpressionError:
+                    pass
+                try:
+                    got = ("value", ep.evaluate_transaction(reader, copy.deepcopy(TXN_B), dict(VARS), copy.deepcopy(ORDERS)))
+                except ep.ExpressionError:
+                    got = ("error", None)
+            else:
+                try:
+                    eng = parse_merchants(f"[Bind]\nmatch: {binder}\ntags: b\n\n[Read]\nmatch: ({reader}) == ({reader})\nfield: got = {reader}\ncategory: R\n")
+                except Exception:  # noqa  (a binder the loader rejects binds nothing)
+                    continue
+                eng.match(txn, data_sources=ds)
+                r = eng.match(copy.deepcopy(TXN_B), data_sources=copy.deepcopy(ORDERS))
+                got = ("value", (r.extra_fields or {}).get("got")) if r.matched else ("error", None)
+            if want == "N_ORDERS":
+                want = len(ORDERS["orders"])
+            ok = (got[0] == "error") if want == "error" else (got == ("value", want))
+            out.append((entry, reader, want, got, ok))
+    H.reset_state()
+    return out
+
+
 def check_case(case):
     viol, evals, nontrivial = [], 0, 0
     outcomes = set()
+    if case["corpus"] == "residue":
+        for binder, _ in case["items"]:
+            for entry, reader, want, got, ok in run_residue(binder):
+                evals += 1
+                nontrivial += 1
+                outcomes.add(f"residue-{entry}:{'clean' if ok else 'LEAK'}")
+                if not ok:
+                    viol.append({"kind": "binding-survives-evaluation", "detail": {"first_expression": binder, "then": reader, "entry": entry,
+                                                                                   "expected": want, "got": repr(got)[:120]},
+                                 "case": {"corpus": "residue", "contexts": "residue", "items": [[binder, None]]}})
+        return {"evals": evals, "nontrivial": nontrivial, "outcomes": sorted(outcomes), "violations": viol[:60],
+                "sample_repr": {"corpus": "residue", "binders": [b for b, _ in case["items"][:4]]}}
     for idx, (expr, must_reject) in enumerate(case["items"]):
         try:
             import warnings
